@@ -150,11 +150,9 @@ fn handle_update_source_file<TCompilationProfile: CompilationProfile>(
             create_or_update_iso_literals(db, target_path)?
         }
         SourceEventKind::Remove(path) => {
-            let interned_file_path = relative_path_from_absolute_and_working_directory(
-                db.get_current_working_directory(),
-                path,
-            );
-            db.remove_iso_literal(interned_file_path);
+            // What was removed may have been a folder, even though there is a file at
+            // this path now (folder replaced by a file): also drop everything below it.
+            remove_iso_literals_from_folder(db, path);
         }
     }
     Ok(())
